@@ -812,3 +812,9 @@ Proof.
   apply (repr_all_trigger _ _ _ c H).
   rewrite drun_conds_length. cbn. rewrite repeat_length. exact Hc.
 Qed.
+
+Theorem d_reach_registered_trigger_false : forall fx nc nch ops,
+  d_d6_free fx (d_init nc nch) ops = true ->
+  forall c cd, nth_error (conds (d_sys (drun fx (d_init nc nch) ops))) c = Some cd ->
+    c_registered cd <> [] -> cond_trigger cd = false.
+Proof. intros fx nc nch ops H. exact (proj1 (drun_inv fx ops _ H (d_init_inv nc nch))). Qed.
